@@ -70,6 +70,112 @@ theorem dset_two_order (d : Dict) (k1 k2 : String) (v1 v2 : Val) (hne : k1 ≠ k
     · rw [dget_dset_other _ _ _ _ (Ne.symm h2), dget_dset_other _ _ _ _ (Ne.symm h1),
           dget_dset_other _ _ _ _ (Ne.symm h1), dget_dset_other _ _ _ _ (Ne.symm h2)]
 
+/-! ### any number of simple keys, any order -/
+
+/-- the value the entries define for key `k`: the normalized value of the (first) entry under `k` -/
+def entryFor (o : Opts) : List (String × GoData) → String → Option Val
+  | [], _ => none
+  | (k', x) :: r, k => if k' = k then (match normValue o x with | .ok v => some v | _ => none) else entryFor o r k
+
+theorem entryFor_perm (o : Opts) {es es' : List (String × GoData)} (hp : es.Perm es')
+    (hnd : (es.map (·.1)).Nodup) (k : String) : entryFor o es k = entryFor o es' k := by
+  induction hp with
+  | nil => rfl
+  | cons x _ ih =>
+    obtain ⟨k1, v1⟩ := x
+    simp only [List.map_cons, List.nodup_cons] at hnd
+    simp only [entryFor]
+    split
+    · rfl
+    · exact ih hnd.2
+  | swap x y l =>
+    obtain ⟨k1, v1⟩ := x
+    obtain ⟨k2, v2⟩ := y
+    simp only [List.map_cons, List.nodup_cons, List.mem_cons, not_or] at hnd
+    simp only [entryFor]
+    by_cases h1 : k1 = k
+    · by_cases h2 : k2 = k
+      · exact absurd (h2.trans h1.symm) hnd.1.1
+      · simp [h1, h2]
+    · by_cases h2 : k2 = k
+      · simp [h1, h2]
+      · simp [h1, h2]
+  | trans h1 h2 ih1 ih2 =>
+    have hnd' := (List.Perm.nodup_iff (List.Perm.map Prod.fst h1)).mp hnd
+    rw [ih1 hnd, ih2 hnd']
+
+theorem entryFor_none_of_not_key (o : Opts) (r : List (String × GoData)) (k : String) (h : k ∉ r.map (·.1)) :
+    entryFor o r k = none := by
+  induction r with
+  | nil => rfl
+  | cons e2 r2 ih2 =>
+    obtain ⟨k2, x2⟩ := e2
+    simp only [List.map_cons, List.mem_cons, not_or] at h
+    simp only [entryFor]
+    rw [if_neg (Ne.symm h.1)]
+    exact ih2 h.2
+
+/-- normalizeMapInto over entries with distinct simple keys that are new to the config: it succeeds, leaves the list
+part alone, and the dictionary answers every key with the entry for it, else with what was there -/
+theorem normMapInto_simple (o : Opts) (a : List Val) (ha : Bool) :
+    ∀ (es : List (String × GoData)) (d : Dict) (hd : Bool),
+      (∀ e ∈ es, SimpleKey o e.1) → (es.map (·.1)).Nodup → (∀ e ∈ es, dget d e.1 = none) →
+      (∀ e ∈ es, ∃ v, normValue o e.2 = .ok v) →
+      ∃ d' hd', normMapInto o (.sub d a hd ha) es = .ok (.sub d' a hd' ha) ∧
+        ∀ k, dget d' k = (match entryFor o es k with | some v => some v | none => dget d k) := by
+  intro es
+  induction es with
+  | nil =>
+    intro d hd _ _ _ _
+    exact ⟨d, hd, rfl, fun k => by simp [entryFor]⟩
+  | cons e r ih =>
+    intro d hd hs hnd hnew hok
+    obtain ⟨k1, x1⟩ := e
+    simp only [List.map_cons, List.nodup_cons] at hnd
+    obtain ⟨v1, hv1⟩ := hok (k1, x1) (by simp)
+    have hs1 : SimpleKey o k1 := hs (k1, x1) (by simp)
+    have hn1 : dget d k1 = none := hnew (k1, x1) (by simp)
+    have hnew' : ∀ e ∈ r, dget (dset d k1 v1) e.1 = none := by
+      intro e he
+      have hne : k1 ≠ e.1 := fun h => hnd.1 (h ▸ List.mem_map_of_mem he)
+      rw [dget_dset_other _ _ _ _ hne]
+      exact hnew e (List.mem_cons_of_mem _ he)
+    obtain ⟨d', hd', hrun, hlook⟩ := ih (dset d k1 v1) true (fun e he => hs e (List.mem_cons_of_mem _ he)) hnd.2 hnew'
+      (fun e he => hok e (List.mem_cons_of_mem _ he))
+    refine ⟨d', hd', ?_, ?_⟩
+    · simp only [normMapInto, hv1, Outcome.bind_ok, setField_simple_new o d a hd ha k1 v1 hs1 hn1]
+      exact hrun
+    · intro k
+      rw [hlook k]
+      simp only [entryFor, hv1]
+      by_cases hk : k1 = k
+      · subst hk
+        have : entryFor o r k1 = none := entryFor_none_of_not_key o r k1 hnd.1
+        rw [this]
+        simp [dget_dset_same]
+      · rw [if_neg hk]
+        cases entryFor o r k with
+        | some v => rfl
+        | none => simp [dget_dset_other _ _ _ _ hk]
+
+/-- C09 for maps with simple keys: whatever order Go's map iteration produces the entries in, every key of the
+resulting config holds the same value -/
+theorem normMapInto_order_independent (o : Opts) (a : List Val) (ha hd : Bool) (d : Dict)
+    (es es' : List (String × GoData)) (hp : es.Perm es')
+    (hs : ∀ e ∈ es, SimpleKey o e.1) (hnd : (es.map (·.1)).Nodup) (hnew : ∀ e ∈ es, dget d e.1 = none)
+    (hok : ∀ e ∈ es, ∃ v, normValue o e.2 = .ok v) :
+    ∃ d1 d2 h1 h2, normMapInto o (.sub d a hd ha) es = .ok (.sub d1 a h1 ha) ∧
+      normMapInto o (.sub d a hd ha) es' = .ok (.sub d2 a h2 ha) ∧ ∀ k, dget d1 k = dget d2 k := by
+  have hs' : ∀ e ∈ es', SimpleKey o e.1 := fun e he => hs e (hp.symm.subset he)
+  have hnd' : (es'.map (·.1)).Nodup := (List.Perm.nodup_iff (List.Perm.map Prod.fst hp)).mp hnd
+  have hnew' : ∀ e ∈ es', dget d e.1 = none := fun e he => hnew e (hp.symm.subset he)
+  have hok' : ∀ e ∈ es', ∃ v, normValue o e.2 = .ok v := fun e he => hok e (hp.symm.subset he)
+  obtain ⟨d1, h1, r1, l1⟩ := normMapInto_simple o a ha es d hd hs hnd hnew hok
+  obtain ⟨d2, h2, r2, l2⟩ := normMapInto_simple o a ha es' d hd hs' hnd' hnew' hok'
+  refine ⟨d1, d2, h1, h2, r1, r2, ?_⟩
+  intro k
+  rw [l1 k, l2 k, entryFor_perm o hp hnd k]
+
 /-! non-vacuity -/
 example : SimpleKey {} "abc" := by unfold SimpleKey; decide
 example : ([("a", Val.nilV), ("b", Val.nilV)] : Dict).Perm [("b", Val.nilV), ("a", Val.nilV)] := List.Perm.swap _ _ _
